@@ -10,7 +10,8 @@
    tampering only that can be nobody but the honest peer; with M terminating the handshakes it is M.
    With an identity splice (attack = splice: M keeps its own static key but sends X's identity key and/or a
    signature that is not M's signature over M's static key) the victim either fails or reports M, never X.
-   A handshake never stays pending after EOF.  Differing prologues: nobody completes.  Without any
+   A handshake in which one message was replaced by the corresponding message of an earlier session between the same
+   parties (attack = replay: message 2 replayed to A, message 1 or 3 to B) does not complete on the side that was fed it.  A handshake never stays pending after EOF.  Differing prologues: nobody completes.  Without any
    attack both complete and the transport keys match (anti-vacuity). *)
 EXTENDS TraceIO
 VARIABLES l, attack, cp, prologue, dn
@@ -20,12 +21,14 @@ R == Rec[l]
 Counterpart(side) == IF side = "A" THEN (IF cp = "M" THEN "M" ELSE "B")
                      ELSE IF side = "B" THEN (IF cp = "M" THEN "M" ELSE "A")
                      ELSE IF side = "Mb" THEN "A" ELSE "B"
-Reset == R.e = "reset" /\ attack' = R.attack /\ cp' = R.cp /\ prologue' = R.prologue /\ dn' = {}
+Reset == R.e = "reset" /\ attack' = (IF R.attack = "replay" THEN (IF R.sched.msg = 2 THEN "replayA" ELSE "replayB") ELSE R.attack) /\ cp' = R.cp /\ prologue' = R.prologue /\ dn' = {}
 Hs == /\ R.e = "hs"
       /\ R.res \in {"done", "err"}                                  \* never pending after EOF
       /\ (R.res = "done" /\ R.side # "Mx" => R.peer = Counterpart(R.side))   \* exactly the remote identity (Mx = adversary's own endpoint)
       /\ (R.res = "done" => prologue = "same")                      \* prologue mismatch fails
       /\ (attack \in {"none", "mitm"} => R.res = "done")            \* untampered bytes: must complete
+      /\ ((attack = "replayA" /\ R.side = "A") \/ (attack = "replayB" /\ R.side = "B") => R.res = "err")   \* the side that was fed a message
+                                                                     \* recorded in an earlier session never completes (fresh ephemeral keys)
       /\ dn' = IF R.res = "done" THEN dn \cup {R.side} ELSE dn
       /\ UNCHANGED <<attack, cp, prologue>>
 Link == /\ R.e = "link" /\ R.side \in dn
